@@ -1,8 +1,336 @@
-(** C08 — Gapped-coordinate maps agree with the gapped string they describe. *)
-From CG3 Require Import Lib.PyZ Lib.Val Model.IndelMap Spec.IndelMapSpec Proofs.IndelMapBounded.
+(** C08 — Gapped-coordinate maps agree with the gapped string they describe.
 
-Theorem slice_bounded_partial : forall (k : list bool) (a b : Z),
-  (length k <= 10)%nat -> 0 <= a -> a <= b -> b <= zlen k ->
-  exists m', getitem_slice (from_mask k) (Some a) (Some b) = Ok m'
-             /\ m' = from_mask (msub k a b) /\ abs m' = msub k a b.
-Proof. exact slice_bounded. Qed.
+    Objects.  A gapped string is its gap mask [k : list bool] ([true] =
+    residue, [false] = gap character).  [from_mask] is the model of
+    [Sequence.parse_out_gaps]; [abs : imap -> list bool] (Spec/IndelMapSpec.v)
+    reads a map [(gap_pos, cum_gap_lengths, parent_length)] back as a string;
+    [WF] is the class invariant (insertion points strictly increasing within
+    [0, parent_length], cumulative lengths strictly increasing and positive).
+    [WF m <-> exists k, m = from_mask k] (wf_from_mask / from_mask_abs), so a
+    theorem "for every well-formed map" is a theorem about every gapped string.
+
+    Naming: [_partial] = proved for part of the domain the property quantifies
+    over (the guard or the length bound is in the statement; bounded ones are
+    decided by complete enumeration inside Coq); [_refuted] = the faithful
+    model of the code violates the unguarded statement (witness computed by
+    [vm_compute]; replayed on the implementation by harness/props/c08.py).
+    This file contains nothing but statements closed by [exact]. *)
+From CG3 Require Import Lib.PyZ Lib.Val Model.IndelMap Spec.IndelMapSpec Spec.IndelMapStringOps.
+From CG3 Require Import Model.IndelMapFixed Model.FeatureMap Spec.FeatureMapSpec Proofs.FeatureMapBounded.
+From CG3 Require Import Proofs.IndelMapProofs Proofs.IndelMapOps Proofs.IndelMapSlice Proofs.IndelMapIndex
+                        Proofs.IndelMapMain Proofs.IndelMapBounded Proofs.IndelMapFixedProofs
+                        Proofs.IndelMapMerge Proofs.IndelMapShared Proofs.IndelMapJoin Proofs.FeatureMapProofs.
+
+(** * construction: string -> map -> string *)
+
+Theorem wf_from_mask : forall k : list bool, WF (from_mask k).
+Proof. exact IndelMapOps.wf_from_mask. Qed.
+
+Theorem abs_from_mask : forall k : list bool, abs (from_mask k) = k.
+Proof. exact IndelMapOps.abs_from_mask. Qed.
+
+(** canonicity: a well-formed map IS the map of the string it spells *)
+Theorem from_mask_abs : forall m : imap, WF m -> from_mask (abs m) = m.
+Proof. exact IndelMapOps.from_mask_abs. Qed.
+
+(** * length, spans (gap runs and ungapped segments in order) *)
+
+Theorem len_spec : forall m : imap, WF m -> len m = zlen (abs m).
+Proof. exact IndelMapOps.len_spec. Qed.
+
+Theorem spans_spec : forall m : imap, WF m -> spans_mask m = abs m.
+Proof. exact IndelMapOps.spans_mask_spec. Qed.
+
+(** * alignment index -> sequence index = residues in front of the position *)
+
+Theorem seq_index_spec : forall (m : imap), WF m -> forall x : Z, 0 <= x <= len m ->
+  get_seq_index m x = Ok (residues (firstn (Z.to_nat x) (abs m))).
+Proof. exact IndelMapSlice.get_seq_index_spec. Qed.
+
+Theorem seq_index_negative : forall (m : imap), WF m -> forall x : Z, - len m <= x < 0 ->
+  get_seq_index m x = Ok (residues (firstn (Z.to_nat (len m + x)) (abs m))).
+Proof. exact IndelMapSlice.get_seq_index_neg. Qed.
+
+(** * sequence index -> alignment index = position of that residue; as a slice
+    stop: the shortest prefix holding that many residues *)
+
+Theorem align_index_spec : forall (m : imap) (s : Z), WF m -> 0 <= s < parent_length m ->
+  exists a, get_align_index m s false = Ok a /\ is_align_index (abs m) s a.
+Proof. exact IndelMapIndex.align_index_spec. Qed.
+
+Theorem align_stop_spec : forall (m : imap) (s : Z), WF m -> 0 <= s <= parent_length m ->
+  exists a, get_align_index m s true = Ok a /\ is_align_stop (abs m) s a.
+Proof. exact IndelMapIndex.align_stop_spec. Qed.
+
+(** the two readings determine the value *)
+Theorem is_align_index_unique : forall (k : list bool) (s a a' : Z),
+  is_align_index k s a -> is_align_index k s a' -> a = a'.
+Proof. exact IndelMapIndex.is_align_index_unique. Qed.
+
+Theorem is_align_stop_unique : forall (k : list bool) (s a a' : Z),
+  is_align_stop k s a -> is_align_stop k s a' -> a = a'.
+Proof. exact IndelMapIndex.is_align_stop_unique. Qed.
+
+Theorem align_index_negative : forall (m : imap) (s : Z), WF m -> - parent_length m <= s < 0 ->
+  exists a, get_align_index m s false = Ok a /\ is_align_index (abs m) (s + parent_length m) a.
+Proof. exact IndelMapIndex.align_index_neg_spec. Qed.
+
+Theorem align_index_out_of_range : forall (m : imap) (s : Z) (b : bool), WF m -> s < - parent_length m ->
+  get_align_index m s b = Err E_Index.
+Proof. exact IndelMapIndex.align_index_out_of_range_wf. Qed.
+
+Theorem seq_align_roundtrip : forall (m : imap) (s : Z), WF m -> 0 <= s < parent_length m ->
+  exists a, get_align_index m s false = Ok a /\ get_seq_index m a = Ok s.
+Proof. exact IndelMapIndex.seq_align_roundtrip. Qed.
+
+(** * slicing by any alignment interval *)
+
+Theorem slice_spec : forall (m : imap) (a b : Z),
+  WF m -> 0 <= a -> a <= b -> b <= len m ->
+  exists m', getitem_slice m (Some a) (Some b) = Ok m' /\ WF m' /\ abs m' = msub (abs m) a b.
+Proof. exact IndelMapSlice.slice_spec. Qed.
+
+(** the same in the literal form of the property *)
+Theorem slice_from_mask : forall (k : list bool) (a b : Z),
+  0 <= a -> a <= b -> b <= zlen k ->
+  getitem_slice (from_mask k) (Some a) (Some b) = Ok (from_mask (msub k a b)).
+Proof. exact IndelMapMain.slice_from_mask. Qed.
+
+(** with Python's conventions for [None] and negative bounds (in range) *)
+Theorem slice_spec_python : forall (m : imap) (oa ob : option Z),
+  WF m ->
+  let a := py_bound (len m) 0 oa in
+  let b := py_bound (len m) (len m) ob in
+  0 <= a -> 0 <= b <= len m ->
+  exists m', getitem_slice m oa ob = Ok m' /\ WF m' /\ abs m' = msub (abs m) a (Z.max a b).
+Proof. exact IndelMapSlice.slice_spec_python. Qed.
+
+(** full statement with Python's clamping of a stop beyond the end — FALSE of the code *)
+Definition stmt_slice_clamped : Prop := forall (k : list bool) (b : Z), 0 <= b ->
+  exists m', getitem_slice (from_mask k) (Some 0) (Some b) = Ok m' /\ abs m' = msub k 0 b.
+
+Theorem slice_beyond_len_refuted :
+  exists k b m', b > zlen k /\
+    getitem_slice (from_mask k) (Some 0) (Some b) = Ok m' /\
+    abs m' <> msub k 0 b /\ len m' > zlen k.
+Proof. exact IndelMapBounded.slice_beyond_len_witness. Qed.
+
+(** * reversing, scaling *)
+
+Theorem nucleic_reversed_spec : forall m : imap, WF m ->
+  exists m', nucleic_reversed m = Ok m' /\ WF m' /\ abs m' = rev (abs m).
+Proof. exact IndelMapOps.nrev_spec. Qed.
+
+Theorem mul_spec : forall (m : imap) (s : Z), WF m -> 1 <= s ->
+  exists m', mul m s = Ok m' /\ WF m' /\ abs m' = stretch s (abs m).
+Proof. exact IndelMapOps.mul_spec. Qed.
+
+(** * concatenating *)
+
+(** read through [abs] the sum always spells the concatenation ... *)
+Theorem add_abs_spec : forall m1 m2 : imap, WF m1 -> WF m2 ->
+  exists m', add m1 m2 = Ok m' /\ abs m' = abs m1 ++ abs m2.
+Proof. exact IndelMapOps.add_abs. Qed.
+
+(** ... and it is the (well-formed) map of the concatenation unless a gap run
+    is split over the joint *)
+Definition stmt_add : Prop := forall k1 k2 : list bool,
+  add (from_mask k1) (from_mask k2) = Ok (from_mask (k1 ++ k2)).
+
+Theorem add_spec_partial : forall k1 k2 : list bool,
+  ~ (ends_in_gap k1 /\ starts_with_gap k2) ->
+  add (from_mask k1) (from_mask k2) = Ok (from_mask (k1 ++ k2)).
+Proof. exact IndelMapMain.add_from_mask. Qed.
+
+Theorem add_refuted :
+  exists k1 k2 m', ends_in_gap k1 /\ starts_with_gap k2 /\
+    add (from_mask k1) (from_mask k2) = Ok m' /\ m' <> from_mask (k1 ++ k2) /\ ~ WF m' /\
+    spans_mask m' <> k1 ++ k2.
+Proof. exact IndelMapMain.add_abutting_gaps_witness. Qed.
+
+(** * gap runs, ungapped segments, alternative constructors — all strings *)
+
+Theorem gap_coordinates_spec : forall k : list bool, get_gap_coordinates (from_mask k) = gap_insertions k.
+Proof. exact IndelMapJoin.gap_coordinates_spec. Qed.
+
+Theorem gap_coords_to_map_spec : forall k : list bool,
+  gap_coords_to_map (gap_insertions k) (count_res k) = Ok (from_mask k).
+Proof. exact IndelMapJoin.gap_coords_to_map_spec. Qed.
+
+Theorem from_aligned_segments_spec : forall k : list bool, has_residue k = true ->
+  from_aligned_segments (seg_runs k) (zlen k) = Ok (from_mask k).
+Proof. exact IndelMapJoin.from_aligned_segments_spec. Qed.
+
+(** [nongap] / [get_coordinates]: full statements FALSE of the pinned code, see the
+    [_refuted] theorems; proved on the stated part of the domain, all lengths *)
+Definition stmt_nongap : Prop := forall k : list bool, nonempty (nongap (from_mask k)) = seg_runs k.
+Definition stmt_get_coordinates : Prop := forall k : list bool,
+  nonempty (get_coordinates (from_mask k)) = nonempty (seq_segments k).
+
+Theorem nongap_spec_partial : forall k : list bool, has_gap k = true -> nongap (from_mask k) = seg_runs k.
+Proof. exact IndelMapJoin.nongap_spec. Qed.
+
+Theorem get_coordinates_spec_partial : forall k : list bool,
+  num_gaps (from_mask k) < 2 \/ ends_gap k = true ->
+  nonempty (get_coordinates (from_mask k)) = nonempty (seq_segments k).
+Proof. exact IndelMapJoin.get_coordinates_partial. Qed.
+
+Theorem nongap_refuted :
+  exists k, has_gap k = false /\ seg_runs k = [(0, 1)] /\ nongap (from_mask k) = [].
+Proof. exact IndelMapBounded.nongap_gapfree_witness. Qed.
+
+Theorem get_coordinates_refuted :
+  exists k, nonempty (seq_segments k) = [(0, 1); (1, 2)] /\
+            nonempty (get_coordinates (from_mask k)) = [(0, 1)].
+Proof. exact IndelMapBounded.get_coordinates_witness. Qed.
+
+(** * gap runs in alignment coordinates; merging / subtracting / intersecting gaps — all inputs *)
+
+Theorem gap_align_coordinates_spec : forall m : imap, WF m -> get_gap_align_coordinates m = gap_runs (abs m).
+Proof. exact IndelMapShared.gap_align_coordinates_spec. Qed.
+
+(** two gap layouts of the same sequence: gap counts in front of each residue add up *)
+Theorem merge_maps_spec : forall m1 m2 : imap, WF m1 -> WF m2 -> parent_length m1 = parent_length m2 ->
+  exists m', merge_maps m1 m2 None = Ok m' /\ WF m' /\ abs m' = mask_merge (abs m1) (abs m2).
+Proof. exact IndelMapMerge.merge_maps_spec. Qed.
+
+Theorem merge_from_mask : forall k1 k2 : list bool, count_res k1 = count_res k2 ->
+  merge_maps (from_mask k1) (from_mask k2) None = Ok (from_mask (mask_merge k1 k2)).
+Proof. exact IndelMapMerge.merge_from_mask. Qed.
+
+(** two rows of the same alignment: the columns where both have a gap *)
+Theorem shared_gaps_spec : forall m1 m2 : imap, WF m1 -> WF m2 -> len m1 = len m2 ->
+  shared_gaps m1 m2 = Ok (mask_shared (abs m1) (abs m2)).
+Proof. exact IndelMapShared.shared_gaps_spec. Qed.
+
+(** ... and the row with those columns removed *)
+Theorem minus_gaps_spec : forall m1 m2 : imap, WF m1 -> WF m2 -> len m1 = len m2 ->
+  exists m', minus_gaps m1 m2 = Ok m' /\ WF m' /\ abs m' = mask_minus (abs m1) (abs m2).
+Proof. exact IndelMapShared.minus_gaps_spec. Qed.
+
+Theorem minus_gaps_from_mask : forall k1 k2 : list bool, zlen k1 = zlen k2 ->
+  minus_gaps (from_mask k1) (from_mask k2) = Ok (from_mask (mask_minus k1 k2)).
+Proof. exact IndelMapShared.minus_gaps_from_mask. Qed.
+
+(** * joining segments: the pieces [k[s:e]] of sorted, non-overlapping (possibly
+    abutting) segments, glued together — all strings, any number of segments *)
+
+Theorem joined_segments_spec : forall (k : list bool) (cs : list (Z * Z)),
+  segs_ok 0 (zlen k) cs -> joined_segments (from_mask k) cs = Ok (from_mask (mask_join k cs)).
+Proof. exact IndelMapJoin.joined_segments_spec. Qed.
+
+(** * the corrected methods (Model/IndelMapFixed.v = notes/proposed_fixes/C08-*.diff)
+    satisfy the unguarded statements; the check runs this variant of the
+    model when the implementation behaves that way *)
+
+Theorem slice_v2_spec : forall (m : imap) (oa ob : option Z),
+  WF m ->
+  let a := py_bound (len m) 0 oa in
+  let b := py_bound (len m) (len m) ob in
+  0 <= a -> 0 <= b ->
+  exists m', getitem_slice_v2 m oa ob = Ok m' /\ WF m' /\ abs m' = msub (abs m) a (Z.max a b).
+Proof. exact IndelMapFixedProofs.slice_v2_spec. Qed.
+
+Theorem slice_v2_from_mask : forall (k : list bool) (a b : Z), 0 <= a -> 0 <= b ->
+  getitem_slice_v2 (from_mask k) (Some a) (Some b) = Ok (from_mask (msub k a (Z.max a b))).
+Proof. exact IndelMapFixedProofs.slice_v2_from_mask. Qed.
+
+Theorem add_v2_spec : forall m1 m2 : imap, WF m1 -> WF m2 ->
+  exists m', add_v2 m1 m2 = Ok m' /\ WF m' /\ abs m' = abs m1 ++ abs m2.
+Proof. exact IndelMapFixedProofs.add_v2_spec. Qed.
+
+Theorem add_v2_from_mask : forall k1 k2 : list bool,
+  add_v2 (from_mask k1) (from_mask k2) = Ok (from_mask (k1 ++ k2)).
+Proof. exact IndelMapFixedProofs.add_v2_from_mask. Qed.
+
+Theorem listings_v2_bounded_partial : forall k : list bool, (length k <= 10)%nat ->
+  nonempty (nongap_v2 (from_mask k)) = seg_runs k /\
+  nonempty (get_coordinates_v2 (from_mask k)) = nonempty (seq_segments k).
+Proof. exact IndelMapFixedProofs.listings_v2_bounded. Qed.
+
+(** * FeatureMap algebra: set-theoretic meaning and "no coordinate outside the
+    parent" — every map of at most two spans (forward, reversed, zero-length,
+    lost) on a parent of length <= 4 (composition: <= 3, with every such
+    sub-map).  [den] = parent position read at each map position,
+    [positions] = the set covered (Spec/FeatureMapSpec.v). *)
+
+Definition stmt_featuremap_algebra : Prop := forall fm : fmap, in_parent fm = true ->
+  (exists c, fm_covered fm = Ok c /\ den c = map Some (positions fm) /\ separated (-1) (fspans c) = true /\
+             in_parent c = true) /\
+  (disjoint_spans fm = true ->
+     (exists c, fm_inverse fm = Ok c /\ den c = inverse_den (fplen fm) (den fm) /\ in_parent c = true) /\
+     (exists c, fm_shadow fm = Ok c /\ den c = map Some (complement (fplen fm) (positions fm)))) /\
+  (forall sub, in_parent sub = true -> fplen sub = flen fm -> fspans fm <> [] ->
+     exists c, fm_getitem_map fm sub = Ok c /\ den c = compose (den fm) (den sub) /\ in_parent c = true).
+
+(** composition [fm[sub]], slicing, reversal, gaps, scaling: ALL maps inside their parent
+    (reversed, zero-length and lost spans included) *)
+
+Theorem composition_spec : forall fm sub : fmap,
+  in_parent fm = true -> fspans fm <> [] -> in_parent sub = true -> fplen sub = flen fm ->
+  exists c, fm_getitem_map fm sub = Ok c /\ den c = compose (den fm) (den sub) /\ fplen c = fplen fm /\
+            in_parent c = true.
+Proof. exact FeatureMapProofs.composition_spec. Qed.
+
+Theorem fm_getitem_slice_spec : forall (fm : fmap) (a b : option Z),
+  in_parent fm = true -> fspans fm <> [] ->
+  exists c, fm_getitem_slice fm a b = Ok c /\ in_parent c = true /\ fplen c = fplen fm /\
+            den c = zslice (den fm) (norm_index a (flen fm) 0)
+                           (Z.max (norm_index a (flen fm) 0) (norm_index b (flen fm) (flen fm))).
+Proof. exact FeatureMapProofs.getitem_slice_spec. Qed.
+
+Theorem fm_nucleic_reversed_spec : forall fm : fmap, in_parent fm = true ->
+  exists c, fm_nucleic_reversed fm = Ok c /\ in_parent c = true /\ fplen c = fplen fm /\
+            zlen (den c) = zlen (den fm) /\
+            (all_forward fm = true -> den c = rev (map (flip (fplen fm)) (den fm))).
+Proof. exact FeatureMapProofs.fm_nucleic_reversed_spec. Qed.
+
+Theorem fm_gaps_spec : forall fm : fmap, in_parent fm = true ->
+  exists c, fm_gaps fm = Ok c /\ den c = map Some (lost_cells 0 (den fm)) /\ fplen c = flen fm /\
+            in_parent c = true /\ all_forward c = true.
+Proof. exact FeatureMapProofs.fm_gaps_spec. Qed.
+
+Theorem fm_without_gaps_spec : forall fm : fmap,
+  den (fm_without_gaps fm) = filter (fun o => match o with Some _ => true | None => false end) (den fm).
+Proof. exact FeatureMapProofs.fm_without_gaps_den. Qed.
+
+Theorem fm_mul_spec : forall (fm : fmap) (k : Z), in_parent fm = true -> all_forward fm = true -> 1 <= k ->
+  den (fm_mul fm k) = flat_map (mul_cell k) (den fm).
+Proof. exact FeatureMapProofs.fm_mul_den. Qed.
+
+Theorem fm_mul_in_parent : forall (fm : fmap) (k : Z), in_parent fm = true -> 1 <= k ->
+  in_parent (fm_mul fm k) = true.
+Proof. exact FeatureMapProofs.fm_mul_in_parent. Qed.
+
+(** shadow is the complement as soon as inverse is the inverse function *)
+Theorem shadow_of_inverse : forall (fm c : fmap), 0 <= fplen fm -> fm_inverse fm = Ok c ->
+  den c = inverse_den (fplen fm) (den fm) -> in_parent c = true ->
+  exists g, fm_shadow fm = Ok g /\ den g = map Some (complement (fplen fm) (positions fm)) /\
+            fplen g = fplen fm /\ in_parent g = true /\ all_forward g = true.
+Proof. exact FeatureMapProofs.shadow_of_inverse. Qed.
+
+(** covered / inverse / shadow: by enumeration on small maps *)
+
+Theorem covered_bounded_partial : forall fm : fmap, small_map fm -> 0 <= fplen fm <= 4 ->
+  exists c, fm_covered fm = Ok c /\ den c = map Some (positions fm) /\
+            separated (-1) (fspans c) = true /\ fplen c = fplen fm /\ in_parent c = true.
+Proof. exact FeatureMapBounded.covered_bounded. Qed.
+
+Theorem inverse_bounded_partial : forall fm : fmap, small_map fm -> 0 <= fplen fm <= 4 ->
+  disjoint_spans fm = true ->
+  exists c, fm_inverse fm = Ok c /\ den c = inverse_den (fplen fm) (den fm) /\
+            fplen c = zlen (den fm) /\ in_parent c = true.
+Proof. exact FeatureMapBounded.inverse_bounded. Qed.
+
+Theorem shadow_bounded_partial : forall fm : fmap, small_map fm -> 0 <= fplen fm <= 4 ->
+  disjoint_spans fm = true ->
+  exists c, fm_shadow fm = Ok c /\ den c = map Some (complement (fplen fm) (positions fm)) /\
+            fplen c = fplen fm /\ in_parent c = true /\ all_forward c = true.
+Proof. exact FeatureMapBounded.shadow_bounded. Qed.
+
+(** * the hypotheses are satisfiable: a concrete well-formed map *)
+Theorem wf_example : WF (from_mask [false; true; true; false; true; false; false]).
+Proof. exact IndelMapOps.wf_example_2. Qed.
+
+Theorem small_map_example : small_map (mk_fmap [FS 0 2 false; FS 1 3 true] 3).
+Proof. exact FeatureMapBounded.small_map_example. Qed.
